@@ -74,7 +74,8 @@ def run(ctx):
     import gen_units
     gen_units.g_unit(ctx, "translate_coreopt")
     from props import c01_units
-    c01_units.run_units(ctx)
+    import common as _common
+    _common.guarded(ctx, "K/S-units", c01_units.run_units, ctx)
     ctx.monitor_rule = ("every parameter dict handed to the objective or to a constraint consists of genuine elements of the "
                         "dimension arrays; the position reported for the step is an integer vector in [0, len-1] decoding to "
                         "exactly the passed values; sweep over all 22 optimizers, spaces 1-4 dims incl. size-1 dims and "
